@@ -404,9 +404,9 @@ theorem publishValidate_accepted (s : Server) (topic : Str) (hv : isValidFilter 
   unfold publishValidate
   simp [hw, hne']
 
-/-- the hypotheses under which an inbound QoS 0 PUBLISH of client object `i` is ACCEPTED and nothing else happens
-    in the op: all decidable, all on the state before the op -/
-structure AcceptedQ0 (s : Server) (i : Nat) (topic : Str) : Prop where
+/-- the gates an inbound QoS 0 PUBLISH of client object `i` has to pass to be routed: all decidable, all on the
+    state before the op -/
+structure PublishGates (s : Server) (i : Nat) (topic : Str) : Prop where
   /-- the client is a network client whose connection is alive -/
   isOpen : (getObj s i).isOpen = true
   peer : (getObj s i).peerGone = false
@@ -422,7 +422,11 @@ structure AcceptedQ0 (s : Server) (i : Nat) (topic : Str) : Prop where
   noRecord : flGet (getObj s i) 0 = none
   /-- `OnPublish` hook mode of the topic: none -/
   hook : assocGet s.pubHook topic = none
-  /-- the publisher itself holds no deferred in-flight message (`nextImmediate` would release one, to the publisher) -/
+
+/-- the hypotheses under which an inbound QoS 0 PUBLISH of client object `i` is ACCEPTED and nothing else happens
+    in the op: the gates, and the publisher itself holds no deferred in-flight message (`nextImmediate` would release
+    one, to the publisher) -/
+structure AcceptedQ0 (s : Server) (i : Nat) (topic : Str) : Prop extends PublishGates s i topic where
   noDeferred : ∀ m ∈ (getObj s i).inflight, 0 ≤ m.expiry
 
 theorem receivePacket_publish_accepted (s : Server) (i : Nat) (dup retain : Bool) (topic payload : Str) (me : Nat)
@@ -473,6 +477,232 @@ theorem step_recv_publish_accepted (s : Server) (conn i : Nat) (dup retain : Boo
   unfold recvOn
   simp only [hc, h.isOpen, receivePacket_publish_accepted s i dup retain topic payload me h hsh, ho, hping,
     Bool.not_true, Bool.false_eq_true, if_false, if_true, List.filter_cons, List.filter_nil, List.append_nil]
+
+/-! ### … and when the publisher does hold deferred messages: what else the op writes
+
+Without `noDeferred` the op is the call of `publishToSubscribers` followed by two calls of `nextImmediate` for the
+publisher (the tail of `processPacket` for the PUBLISH, and for the harness's barrier PINGREQ).  Each releases at
+most one message: one of the publisher's own in-flight messages that was DEFERRED (`expiry < 0`), and only if the
+publisher has send quota; it is written to the publisher's connection. -/
+
+theorem mem_permuteFuel {α} : ∀ (fuel seed : Nat) (l : List α) (x : α), x ∈ permuteFuel fuel seed l → x ∈ l := by
+  intro fuel
+  induction fuel with
+  | zero => intro seed l x h; simpa [permuteFuel] using h
+  | succ f ih =>
+    intro seed l x h
+    cases l with
+    | nil => simp [permuteFuel] at h
+    | cons a as =>
+      simp only [permuteFuel] at h
+      split at h
+      · rename_i y hy
+        rcases List.mem_cons.mp h with h | h
+        · rw [h]; exact List.mem_of_getElem? hy
+        · exact List.mem_of_mem_eraseIdx (ih _ _ _ h)
+      · exact h
+
+theorem mem_permuteBy {α} (seed : Nat) (l : List α) (x : α) (h : x ∈ permuteBy seed l) : x ∈ l :=
+  mem_permuteFuel _ _ _ _ h
+
+/-- what the acting client's object looks like to a write after a release: connection, liveness, version kept; the
+    in-flight records and the send quota only shrink -/
+structure AfterRelease (a b : Client) : Prop where
+  isOpen : b.isOpen = a.isOpen
+  peerGone : b.peerGone = a.peerGone
+  inline : b.inline = a.inline
+  conn : b.conn = a.conn
+  ver : b.ver = a.ver
+  quota : b.sendQuota ≤ a.sendQuota
+  infl : ∀ m ∈ b.inflight, m ∈ a.inflight
+
+theorem AfterRelease.refl (a : Client) : AfterRelease a a := ⟨rfl, rfl, rfl, rfl, rfl, Nat.le_refl _, fun _ h => h⟩
+
+theorem writeMsg_length_le_one (s : Server) (i : Nat) (m : Msg) : (writeMsg s i m).length ≤ 1 := by
+  unfold writeMsg
+  simp only []
+  split
+  · simp
+  · split <;> simp
+
+theorem writeMsg_congr {s t : Server} {i : Nat} (m : Msg) (ho : (getObj t i).isOpen = (getObj s i).isOpen)
+    (hp : (getObj t i).peerGone = (getObj s i).peerGone) (hi : (getObj t i).inline = (getObj s i).inline)
+    (hc : (getObj t i).conn = (getObj s i).conn) (hv : (getObj t i).ver = (getObj s i).ver) :
+    writeMsg t i m = writeMsg s i m := by
+  unfold writeMsg
+  simp only [ho, hp, hi, hc, hv]
+
+/-- `nextImmediate`: nothing is written, or the client has send quota and ONE of its deferred in-flight messages is
+    written to it -/
+theorem nextImmediate_out (s : Server) (i : Nat) :
+    (nextImmediate s i).2 = [] ∨
+    ((getObj s i).sendQuota > 0 ∧ ∃ m ∈ (getObj s i).inflight, m.expiry < 0 ∧ (nextImmediate s i).2 = writeMsg s i m) := by
+  unfold nextImmediate
+  extract_lets c
+  split
+  · rename_i hc
+    split
+    · rename_i m hm
+      right
+      have hq : c.sendQuota > 0 := by
+        simp only [Bool.and_eq_true, decide_eq_true_eq] at hc
+        exact hc.2
+      have hmem : m ∈ c.inflight.filter (fun m => decide (m.expiry < 0)) :=
+        mem_permuteBy _ _ _ (List.mem_of_mem_head? hm)
+      rw [List.mem_filter] at hmem
+      refine ⟨hq, m, hmem.1, of_decide_eq_true hmem.2, ?_⟩
+      extract_lets o
+      split
+      rfl
+    · exact Or.inl rfl
+  · exact Or.inl rfl
+
+theorem nextImmediate_after (s : Server) (i : Nat) : AfterRelease (getObj s i) (getObj (nextImmediate s i).1 i) := by
+  unfold nextImmediate
+  extract_lets c
+  split
+  · split
+    · rename_i m hm
+      extract_lets o
+      split
+      rename_i c1 ok heq
+      have hc1 : c1 = { c with inflight := c.inflight.filter (fun x => x.id != m.id) } := by
+        unfold flDelete at heq
+        cases heq; rfl
+      extract_lets s1
+      have key : AfterRelease c (getObj s1 i) := by
+        rcases getObj_setObj_self_cases { s with nextSeed := s.nextSeed / 64 } i (decSend c1) with e | e
+        · show AfterRelease c (getObj (setObj { s with nextSeed := s.nextSeed / 64 } i (decSend c1)) i)
+          rw [e, hc1]
+          unfold decSend
+          split
+          · exact ⟨rfl, rfl, rfl, rfl, rfl, Nat.sub_le _ _, fun x hx => (List.mem_filter.mp hx).1⟩
+          · exact ⟨rfl, rfl, rfl, rfl, rfl, Nat.le_refl _, fun x hx => (List.mem_filter.mp hx).1⟩
+        · show AfterRelease c (getObj (setObj { s with nextSeed := s.nextSeed / 64 } i (decSend c1)) i)
+          rw [e]
+          exact AfterRelease.refl _
+      split
+      · exact key
+      · exact key
+    · exact AfterRelease.refl _
+  · exact AfterRelease.refl _
+
+/-- an output of a release is a PUBLISH or an ack (not the barrier's PINGRESP) -/
+theorem nextImmediate_out_shape (s : Server) (i : Nat) : ∀ x ∈ (nextImmediate s i).2,
+    (∃ n ver m me, x = Out.wrote n (.publish ver m me)) ∨ (∃ n ver t id rc, x = Out.wrote n (.ack ver t id rc)) := by
+  intro x hx
+  rcases nextImmediate_out s i with h | ⟨_, m, _, _, h⟩
+  · rw [h] at hx; cases hx
+  · rw [h] at hx
+    unfold writeMsg at hx
+    simp only at hx
+    split at hx
+    · cases hx
+    · split at hx
+      · rw [List.mem_singleton] at hx; exact Or.inl ⟨_, _, _, _, hx⟩
+      · rw [List.mem_singleton] at hx; exact Or.inr ⟨_, _, _, _, _, hx⟩
+
+theorem receivePacket_pingreq_live (s : Server) (i : Nat) (ho : (getObj s i).isOpen = true)
+    (hp : (getObj s i).peerGone = false) :
+    receivePacket s i .pingreq =
+      ((nextImmediate s i).1, [.wrote (getObj s i).conn .pingresp] ++ (nextImmediate s i).2, none) := by
+  unfold receivePacket
+  simp only [dead_of_live ho hp, Bool.not_false, if_true]
+
+theorem receivePacket_publish_gates (s : Server) (i : Nat) (dup retain : Bool) (topic payload : Str) (me : Nat)
+    (h : PublishGates s i topic) :
+    receivePacket s i (.publish 0 dup retain 0 topic payload me none) =
+      ((nextImmediate (publishToSubscribers (retainedState s (inboundMsg s i 0 dup retain 0 topic payload me))
+          (inboundMsg s i 0 dup retain 0 topic payload me)).1 i).1,
+       (publishToSubscribers (retainedState s (inboundMsg s i 0 dup retain 0 topic payload me))
+          (inboundMsg s i 0 dup retain 0 topic payload me)).2 ++
+       (nextImmediate (publishToSubscribers (retainedState s (inboundMsg s i 0 dup retain 0 topic payload me))
+          (inboundMsg s i 0 dup retain 0 topic payload me)).1 i).2, none) := by
+  unfold receivePacket
+  simp only [publishValidate_accepted s topic h.valid h.nonempty,
+    processPublish_accepted_shape s i dup retain 0 topic payload me h.notInline h.valid h.quota h.acl h.noRecord
+      h.nonempty h.hook]
+
+/-- **the op, in general**: an inbound QoS 0 PUBLISH that passes the gates writes what `publishToSubscribers`
+    writes, then what two releases for the publisher write (`nextImmediate` after the PUBLISH and after the barrier
+    PINGREQ) -/
+theorem step_recv_publish_outputs (s : Server) (conn i : Nat) (dup retain : Bool) (topic payload : Str) (me : Nat)
+    (hc : assocGet s.connOf conn = some i) (h : PublishGates s i topic) :
+    (step s (.recv conn (.publish 0 dup retain 0 topic payload me none))).2 =
+      (publishToSubscribers (retainedState s (inboundMsg s i 0 dup retain 0 topic payload me))
+        (inboundMsg s i 0 dup retain 0 topic payload me)).2 ++
+      (nextImmediate (publishToSubscribers (retainedState s (inboundMsg s i 0 dup retain 0 topic payload me))
+        (inboundMsg s i 0 dup retain 0 topic payload me)).1 i).2 ++
+      (nextImmediate (nextImmediate (publishToSubscribers (retainedState s (inboundMsg s i 0 dup retain 0 topic payload me))
+        (inboundMsg s i 0 dup retain 0 topic payload me)).1 i).1 i).2 := by
+  have hd := (publishToSubscribers_deliv (retainedState s (inboundMsg s i 0 dup retain 0 topic payload me))
+    (inboundMsg s i 0 dup retain 0 topic payload me)).all i
+  rw [getObj_retainedState] at hd
+  have ha := nextImmediate_after (publishToSubscribers (retainedState s (inboundMsg s i 0 dup retain 0 topic payload me))
+    (inboundMsg s i 0 dup retain 0 topic payload me)).1 i
+  have ho := (ha.isOpen.trans hd.isOpen.symm).trans h.isOpen
+  have hp := (ha.peerGone.trans hd.peerGone.symm).trans h.peer
+  have hping := receivePacket_pingreq_live _ i ho hp
+  rw [step]
+  unfold recvOn
+  simp only [hc, h.isOpen, receivePacket_publish_gates s i dup retain topic payload me h, ho, hping,
+    Bool.not_true, Bool.false_eq_true, if_false, if_true, List.filter_cons, List.filter_append,
+    List.filter_nil, List.nil_append, List.append_assoc]
+  rw [List.filter_eq_self.mpr]
+  intro x hx
+  rcases nextImmediate_out_shape _ i x hx with ⟨_, _, _, _, e⟩ | ⟨_, _, _, _, _, e⟩ <;> rw [e]
+
+/-- **what else the op can write, precisely.**  Every output of the op that does not come from
+    `publishToSubscribers` is the release of a deferred message of the PUBLISHER: the publisher has send quota and
+    holds (in the state before the op — when the message is QoS 0 after shaping its own in-flight records are not
+    touched by the routing) an in-flight message `m` with `expiry < 0`, and the output is what `writeMsg` writes for
+    `m` on the publisher's connection.  There are at most two such outputs. -/
+theorem step_recv_publish_releases (s : Server) (conn i : Nat) (dup retain : Bool) (topic payload : Str) (me : Nat)
+    (hc : assocGet s.connOf conn = some i) (h : PublishGates s i topic)
+    (hsh : (subscribers (retainedState s (inboundMsg s i 0 dup retain 0 topic payload me)).topics topic).shared = []) :
+    ∃ r, (step s (.recv conn (.publish 0 dup retain 0 topic payload me none))).2 =
+        (publishToSubscribers (retainedState s (inboundMsg s i 0 dup retain 0 topic payload me))
+          (inboundMsg s i 0 dup retain 0 topic payload me)).2 ++ r ∧ r.length ≤ 2 ∧
+      ∀ x ∈ r, (getObj s i).sendQuota > 0 ∧ ∃ m ∈ (getObj s i).inflight, m.expiry < 0 ∧ x ∈ writeMsg s i m := by
+  have hk := publishToSubscribers_q0_keep (retainedState s (inboundMsg s i 0 dup retain 0 topic payload me))
+    (inboundMsg s i 0 dup retain 0 topic payload me) rfl (Or.inl rfl) hsh i
+  rw [getObj_retainedState] at hk
+  have hd := (publishToSubscribers_deliv (retainedState s (inboundMsg s i 0 dup retain 0 topic payload me))
+    (inboundMsg s i 0 dup retain 0 topic payload me)).all i
+  rw [getObj_retainedState] at hd
+  have ha := nextImmediate_after (publishToSubscribers (retainedState s (inboundMsg s i 0 dup retain 0 topic payload me))
+    (inboundMsg s i 0 dup retain 0 topic payload me)).1 i
+  refine ⟨_, by rw [step_recv_publish_outputs s conn i dup retain topic payload me hc h, List.append_assoc], ?_, ?_⟩
+  · rw [List.length_append]
+    have l1 : ∀ t : Server, (nextImmediate t i).2.length ≤ 1 := by
+      intro t
+      rcases nextImmediate_out t i with e | ⟨_, m, _, _, e⟩ <;> rw [e]
+      · exact Nat.zero_le _
+      · exact writeMsg_length_le_one t i m
+    have := l1 (publishToSubscribers (retainedState s (inboundMsg s i 0 dup retain 0 topic payload me))
+      (inboundMsg s i 0 dup retain 0 topic payload me)).1
+    have := l1 (nextImmediate (publishToSubscribers (retainedState s (inboundMsg s i 0 dup retain 0 topic payload me))
+      (inboundMsg s i 0 dup retain 0 topic payload me)).1 i).1
+    omega
+  · intro x hx
+    rcases List.mem_append.mp hx with hx | hx
+    · rcases nextImmediate_out _ i with e | ⟨q, m, hm, he, e⟩
+      · rw [e] at hx; cases hx
+      · rw [e] at hx
+        rw [hk.2] at q
+        rw [hk.1] at hm
+        rw [writeMsg_congr m hd.isOpen.symm hd.peerGone.symm hd.inline.symm hd.conn.symm hd.ver.symm] at hx
+        exact ⟨q, m, hm, he, hx⟩
+    · rcases nextImmediate_out _ i with e | ⟨q, m, hm, he, e⟩
+      · rw [e] at hx; cases hx
+      · rw [e] at hx
+        have q' := Nat.lt_of_lt_of_le q ha.quota
+        rw [hk.2] at q'
+        have hm' := ha.infl m hm
+        rw [hk.1] at hm'
+        rw [writeMsg_congr m (ha.isOpen.trans hd.isOpen.symm) (ha.peerGone.trans hd.peerGone.symm)
+          (ha.inline.trans hd.inline.symm) (ha.conn.trans hd.conn.symm) (ha.ver.trans hd.ver.symm)] at hx
+        exact ⟨q', m, hm', he, hx⟩
 
 /-! ### the state with the retained store updated: same tables, same entitlement -/
 
